@@ -46,10 +46,17 @@ def redescribe(crys0, kind, rng):
         U = unimodular(rng, d)
         Ui = np.round(np.linalg.inv(U)).astype(int)
         return np.dot(A, U), [[np.dot(Ui, u) for u in sp] for sp in crys0.basis]
-    if kind == "supercell":
-        S = np.eye(d, dtype=int)
-        S[rng.randrange(d), rng.randrange(d)] += 1
-        if abs(round(np.linalg.det(S))) < 2:
+    if kind in ("supercell", "supercell4"):
+        if kind == "supercell4":
+            # several internal translations that the point operations permute among themselves (conventional
+            # fcc-type cell, 2x2(x1), 3x1): the atom maps of rotations and internal translations do not commute
+            S = np.array(rng.choice([[[-1, 1, 1], [1, -1, 1], [1, 1, -1]], [[2, 0, 0], [0, 2, 0], [0, 0, 1]],
+                                     [[1, 1, 0], [-1, 1, 0], [0, 0, 2]]] if d == 3 else
+                                    [[[2, 0], [0, 2]], [[3, 0], [0, 1]], [[1, 2], [-2, 1]]]), dtype=int)
+        else:
+            S = np.eye(d, dtype=int)
+            S[rng.randrange(d), rng.randrange(d)] += 1
+        if kind == "supercell" and abs(round(np.linalg.det(S))) < 2:
             k = rng.randrange(d)
             S = np.eye(d, dtype=int)
             S[k, k] = 2
@@ -59,7 +66,7 @@ def redescribe(crys0, kind, rng):
         for sp in crys0.basis:
             lst = []
             for u in sp:
-                for R in itertools.product(range(-2, 3), repeat=d):
+                for R in itertools.product(range(-3, 4), repeat=d):
                     x = np.dot(Si, u + np.array(R))
                     x = x - np.floor(x + 1e-9)
                     if not any(np.allclose(x, y, atol=1e-7) or np.allclose(np.abs(x - y), 1, atol=1e-7) for y in lst) \
@@ -148,7 +155,7 @@ def run(ctx):
           ("honeycomb", 0, 1)]
     if not quick:
         iw = calc.INTERSTITIAL_WORLDS
-    kinds = ("permute", "unimodular", "supercell")
+    kinds = ("permute", "unimodular", "supercell", "supercell4")
     for name, chem, shell in iw:
         s = calc.interstitial(name, chem, shell, rng)
         d = calc.interstitial_data(s, rng, 0, 3, 0, 1)
@@ -204,6 +211,8 @@ def run(ctx):
         for kind in kinds:
             key = "vacancy|%s|%s" % (name, kind)
             if kind == "supercell" and quick and name not in ("fcc", "honeycomb"):
+                continue
+            if kind == "supercell4" and name not in (("fcc",) if quick else ("fcc", "honeycomb", "bcc", "square")):
                 continue
             try:
                 A1, b1 = redescribe(s.crys, kind, rng)
